@@ -180,6 +180,8 @@ func (z *zmodemTransfer) handleZmodemError(msg string) {
 	if cmd := z.cmd.Load(); cmd != nil {
 		_ = writeAll(z.stdin, zmodemCancelFullSequence)
 		z.ensureClientExit(cmd)
+	} else {
+		z.resetCleanupTimer() // there is no client process whose exit would start the cleanup
 	}
 
 	z.writeMessage(msg)
@@ -387,11 +389,17 @@ func (z *zmodemTransfer) handleZmodemEvent(logger *traceLogger, serverIn io.Writ
 			z.handleZmodemError(err.Error())
 			return
 		}
+		if z.stopped.Load() { // stopped while choosing
+			return
+		}
 		z.uploadFiles(files)
 	} else {
 		path, err := chooseDownloadPath()
 		if err != nil {
 			z.handleZmodemError(err.Error())
+			return
+		}
+		if z.stopped.Load() { // stopped while choosing
 			return
 		}
 		z.downloadFiles(path)
